@@ -95,8 +95,8 @@ class Ctx:
         return r
 
     # ------------------------------------------------------------------ trace validation
-    def validate(self, module, traces, shards=16, timeout=1200, family=None, cfg_text=None):
-        verdicts, st = tlc.validate_traces(module, traces, shards=shards, timeout=timeout, cfg_text=cfg_text)
+    def validate(self, module, traces, shards=16, timeout=1200, family=None, cfg_text=None, weight=None):
+        verdicts, st = tlc.validate_traces(module, traces, shards=shards, timeout=timeout, cfg_text=cfg_text, weight=weight)
         self.states += st["distinct"]
         self.transitions += st["generated"]
         self.traces_validated += len(verdicts)
